@@ -33,6 +33,7 @@ def _act(frm: Tuple[int, int], to: Tuple[int, int]) -> int:
 
 class A(Adapter):
     name = "Connector"
+    run_scale = 1
     mask_mode = "per_agent"
     noop = 0
     has_reaction = True
